@@ -29,7 +29,7 @@ func simple(rule string, min int64) *plan {
 }
 
 func init() {
-	plans["C02"] = simple("two thirds of the cases walk the 384 structured operand combinations (8x8 torsion pairs x prime-order parts {(0,0),(r,0),(0,r),(r,r),(r,-r),(r,r')}, so P=Q, Q=-P, P+Q of small order and the identity on either side all occur), one third are independent points of the whole group; every operand is built through a random public-API route (decoding, non-canonical decoding, SetExtendedCoordinates with projective scale and per-coordinate limb recipes, via addition, via negation); Add, Subtract, Negate and MultByCofactor are each evaluated once per case with a receiver that is the zero value, aliased to P, aliased to Q or another point; coordinates, affine point and Bytes are compared with the affine addition law in big integers. non-trivial = not both operands the identity; distinct by (op, receiver state, encodings, construction routes).", 1000)
+	plans["C02"] = simple("two thirds of the cases walk the 384 structured operand combinations (8x8 torsion pairs x prime-order parts {(0,0),(r,0),(0,r),(r,r),(r,-r),(r,r')}, so P=Q, Q=-P, P+Q of small order and the identity on either side all occur), one third are independent points of the whole group; every operand is built through a random public-API route (decoding, non-canonical decoding, SetExtendedCoordinates with projective scale and per-coordinate limb recipes, via addition, via negation); Add, Subtract, Negate and MultByCofactor are each evaluated once per case with a receiver that is the zero value, aliased to P, aliased to Q or another point; a second round then applies a random one of the four methods to the OBJECTS the first round produced (not copies; receivers are the zero value, a constructor result or a decoded point), so that whatever per-object state an operation leaves behind is what the next one reads; coordinates, affine point and Bytes are compared with the affine addition law in big integers. non-trivial = not both operands the identity; distinct by (op, receiver state, encodings, construction routes).", 1000)
 	plans["C04"] = simple("32-byte candidates from 12 classes (uniform; valid encodings with the sign flipped, single bit flips, +-1/+-2 neighbours of valid y; all 2x19 non-canonical y; special y (0,+-1,p,p+-1,2^255-1,+-i,18,19) x sign; x=0 with sign bit; patterned/low-weight; curve-constant related y) and every wrong length 0..100,128,255,1024 (with valid encodings embedded as prefix/suffix); accept/reject is compared with an Euler-criterion oracle and the decoded point (coordinates, affine x/y, re-encoding) with ModSqrt. every case is non-trivial; distinct by input bytes.", 10000)
 	plans["C05"] = simple("for each model point (whole group, plus points with y within 40 of 0 or p) all 6 construction routes plus 4 more random rescalings are encoded and compared with the RFC 8032 reference encoding and round-tripped through SetBytes; every second case also compares P+Q vs Q+P, [a]Q+[b]Q, [a+b]Q, three doublings vs MultByCofactor with the model; accepted non-canonical encodings (y+p, sign bit on x=0) must re-encode canonically. non-trivial = point != identity; distinct by (encoding, construction route).", 5000)
 	plans["C06"] = simple("operand pairs by relation: same point in two representations/histories (also the same pointer), P vs P+T_j for the 7 non-trivial torsion translations, P vs -P, (x,y) vs (x,-y), the 8x8 small-order pairs exhaustively, P+T_a vs P+T_b, independent points; both argument orders; every operand built through a random public-API route; Equal must be exactly 1 or 0 as the model says. non-trivial = not both identity; distinct by (order, encodings, routes).", 10000)
@@ -37,7 +37,7 @@ func init() {
 	plans["C08"] = simple("SetCanonicalBytes over boundary values (l-1, l, l+1, 2^252, 2^253-1, 2^255.., 2^256-1), strings equal to l-1 above byte i and +-1 at byte i with random low part (all 32 positions), l-1 with random low parts, k*l+-small, single bits, top-byte sweep, structured and uniform values; SetUniformBytes over all-ones minus each bit, each single bit of 512, 21/42-byte split boundaries, k*l near 2^512, one-third-only, small k*l, uniform; SetBytesWithClamping over the same 32-byte classes; every wrong length 0..100,128,255,1024 for all three setters; accept sets, round trips and values are compared with integer comparison / big.Int mod l / RFC 8032 clamping. distinct by (setter, input).", 50000)
 	plans["C09"] = simple("(i) one-step: every field operation on operand pairs drawn from (value class x reachable representation recipe R0-R3), a quarter of them from the limb-maximising recipes including constructed operands whose limbs sit at the top of what Mult32 can produce (2^51+2^32, limb0 2^51+19*2^32); (ii) histories of 30-120 steps where outputs feed inputs, each step the best of 3 candidates by largest output limb, finished with Invert/Pow22523 on the pool; (iii) values p-20..p+1, 0, 18..20 in every recipe. Results are compared with math/big through Bytes and independently through the raw limbs, every output limb is asserted < 2^52, and operands are snapshotted bit for bit. Only representations reachable through the public API are used. non-trivial = an operand > 1; distinct by (op, operand values, operand raw limbs).", 50000)
 	plans["C10"] = simple("SetBytes over all 19 non-canonical encodings x bit 255, p-k neighbours, class values with bit 255, uniform; SetWideBytes over all-ones minus each bit, each single bit, k*p+-1, MSB patterns of both halves, half-only, uniform; Bytes/IsNegative/Equal over 4 representations (cycling through all 12 recipes) of the same value and of a different value; Select/Swap for cond 0 and 1, fresh and aliased receivers, compared on raw limbs. distinct by (operation, input bytes / value and recipe).", 50000)
-	plans["C13"] = simple("per case a model point in a random projective scale gives a valid quadruple, which is used as is (4/16 + all-negated) or made invalid in exactly one way: T perturbed, T negated, X or Y perturbed with T recomputed, Z=0 with valid X,Y,T, all-zero in every representation of zero (literal, p limbs, 2p after carry, x-x, neg(0), recipes), Z=T=0 with X or Y zero, Z doubled alone, X/Y swapped, X negated alone, uniform quadruple; every coordinate gets a random limb recipe and equal-valued arguments are aliased at random; accept/reject is compared with the three conditions in big integers, accepted points with (X/Z, Y/Z), and the export is re-imported. distinct by (values, recipes).", 10000)
+	plans["C13"] = simple("per case a model point in a random projective scale gives a valid quadruple, which is used as is (4/16 + all-negated) or made invalid in exactly one way: T perturbed, T negated, X or Y perturbed with T recomputed, Z=0 with valid X,Y,T, all-zero in every representation of zero (literal, p limbs, 2p after carry, x-x, neg(0), recipes), Z=T=0 with X or Y zero, Z doubled alone, X/Y swapped, X negated alone, uniform quadruple; every coordinate gets a random limb recipe and equal-valued arguments are aliased at random; accept/reject is compared with the three conditions in big integers, accepted points with (X/Z, Y/Z), and the export is re-imported. distinct by (values, recipes). A quarter of the accepted cases then reuse the source object as a receiver (Add, MultByCofactor+Add, Set) and feed the EARLIER export back: it must still describe the exported point.", 10000)
 	plans["C14"] = simple("the seven fallible setters x {wrong length (all of 0..100,128,255,1024), off-curve encoding, scalar >= l, invalid coordinate quadruples (T or X perturbed, Z=0, all-zero), valid input} x receiver state {zero value, typical, non-canonical representation, target of previously failed calls}; raw 160/32/40-byte snapshots of the receiver, copies of the input slice and raw snapshots of coordinate arguments are compared before/after; (nil,error) on failure and (receiver,nil) on success. distinct by (setter, input, receiver snapshot).", 10000)
 	plans["C15"] = simple("enumerated: every exported Point operation x every non-empty subset of its Point-typed input positions set to a zero-value Point (other inputs from the generators, receiver zero/identity/generator) must panic; multi-scalar routines with a zero-value element at each index for n=1..5 (also when its scalar is 0) and all length pairs (n,m), n!=m<=4 incl. nil vs empty must panic; every operation with a zero-value Point as pure receiver must succeed and match the model; Set is exempt. distinct by (operation, positions, other inputs).", 5000)
 	plans["C16"] = simple("(u,v) classes: (0,0), (0,v), (u,0), u/v square, non-square, u=+-v, u=+-i*v, v=1, small values, the (u,v) point decoding produces, class values, uniform; each operand in a random reachable limb recipe; receiver fresh, aliased to u, aliased to v; (value of r, wasSquare) compared with an Euler-criterion + ModSqrt oracle written from the specification text, r must be even, returned pointer must be the receiver. non-trivial = (u,v) != (0,0); distinct by (alias, u, v, recipes).", 10000)
